@@ -1,0 +1,16 @@
+//go:build verif
+
+// Contracts for the contract-based verification in /verif (comment-only file).
+
+package beaconing
+
+//@ import seg "github.com/scionproto/scion/pkg/segment"
+//@ macro sigmaDef(p) = (forall i int :: 0 <= i && i < len(p.ASEntries) ==> seg.sigma(p, i) == uint16(p.ASEntries[i].HopEntry.HopField.MAC[0])<<8|uint16(p.ASEntries[i].HopEntry.HopField.MAC[1]))
+
+//@ # the accumulator for the entry about to be appended (index len(ASEntries)) is the XOR chain over all entries
+//@ func extractBeta
+//@   props C22
+//@   requires pseg != nil && sigmaDef(pseg)
+//@   loop 1 invariant -1 <= rangeindex && rangeindex < len(pseg.ASEntries) && beta == seg.betaAt(pseg, pseg.Info.SegmentID, rangeindex+1)
+//@   modifies nothing
+//@   ensures result == seg.betaAt(pseg, pseg.Info.SegmentID, len(pseg.ASEntries))
